@@ -188,6 +188,8 @@ impl SameReceiver {
         self.dc_block.reset();
         self.agc.reset();
         self.demod.reset();
+        self.symsync
+            .set_loop_bandwidth(self.timing_bandwidth_unlocked);
         self.symsync.reset();
         self.squelch.reset();
         self.equalizer.reset();
